@@ -247,8 +247,9 @@ def run_point(spec):
 
 
 def run_commit_fault(spec):
-    """Fault = the j-th COMMIT of the request fails with 'database is locked' (another connection
-    holds the file lock beyond the busy timeout); the process stays alive.  What the response
+    """Fault = the j-th COMMIT of the request (with persist: every COMMIT from the j-th on) fails
+    with 'database is locked' (another connection holds the file lock beyond the busy timeout);
+    the process stays alive.  What the response
     reports must be what is in effect: items answered SUCCESS are applied, the others are not."""
     import sqlite3
     import sqlalchemy.exc
@@ -264,7 +265,7 @@ def run_commit_fault(spec):
         def on_commit(conn):
             k = seen[0]
             seen[0] += 1
-            if k == spec["j"]:
+            if k == spec["j"] or (spec.get("persist") and k > spec["j"]):
                 raise sqlalchemy.exc.OperationalError("COMMIT", {}, sqlite3.OperationalError("database is locked"))
         event.listen(srv.engine._data_store, "commit", on_commit)
         out = _send_fn(var)(srv)
@@ -296,7 +297,8 @@ def run_commit_fault(spec):
                       "commit #%d failed; items reported %r; diff vs. applying exactly the successful items:\n%s"
                       % (spec["j"], [(i["op"], i["reason"] or "SUCCESS") for i in items],
                          "\n".join(hist.diff(want, snap, 10)))))
-        return b, True, ["commit-fault", "variant:" + spec["label"],
+        return b, True, ["commit-fault" + ("-persistent" if spec.get("persist") else ""),
+                         "variant:" + spec["label"],
                          "commit-fault-acked" if len(ok) == len(items) else "commit-fault-reported-failure"]
     finally:
         srv.close()
@@ -491,6 +493,8 @@ def all_commit_faults():
         ncommit = sum(1 for e in cal["log"] if e[0] == "commit")
         for j in range(ncommit):
             pts.append({"label": var["label"], "fault": "commit-error", "j": j})
+            # the lock is held for long: every COMMIT from the j-th on fails (a retry does too)
+            pts.append({"label": var["label"], "fault": "commit-error", "j": j, "persist": True})
     return pts
 
 
